@@ -21,7 +21,8 @@ from .. import core, tlc
 
 LEVEL = "exploration"
 ZONES_Q = ["America/Edmonton", "Europe/Berlin", "Australia/Lord_Howe", "America/St_Johns", "Asia/Kolkata", "Pacific/Auckland",
-           "America/Sao_Paulo", "Europe/London", "Asia/Tehran", "Africa/Casablanca", "America/New_York", "Australia/Sydney"]
+           "America/Sao_Paulo", "Europe/London", "Asia/Tehran", "Africa/Casablanca", "America/New_York", "Australia/Sydney",
+           "America/Port-au-Prince", "US/East-Indiana"]            # (zone names containing the date separator)
 DELTAS = [-7201, -7200, -3601, -3600, -1801, -1800, -1, 0, 1, 1799, 1800, 1801, 3599, 3600, 3601, 7199, 7200, 7201]
 BASES = [0.0, 951782400.0, 1399326141.0, 1414915323.0, 2000000000.0]
 
